@@ -599,8 +599,8 @@ func (s *WeatherDataShared) transformWeatherData(yrz int, corr corrArr) {
 			s.RADI[y][index] = s.RADI[y][index] / 2
 
 			// correct wind to a minimum of 0.5 for ET0 calculations
-			if s.WIN[yrz-1][T-1] < 0.5 {
-				s.WIN[yrz-1][T-1] = 0.5
+			if s.WIN[y][index] < 0.5 {
+				s.WIN[y][index] = 0.5
 			}
 		}
 	}
